@@ -422,6 +422,15 @@ def gen_mutation(rng, sig, app_label, kinds=None):
         else:
             name = rng.choice(nonpk).field_name
         return {'t': 'DeleteField', 'model': mname, 'field': name}
+    if k == 'RenamePK':
+        # rename the primary key (explicit or the automatic `id`), optionally with a new column name
+        pks = [f for f in fields if f.get_attr_value('primary_key')]
+        free = [n for n in ['ident', 'key', 'pk1'] if n not in existing]
+        if not pks or not free:
+            return gen_mutation(rng, sig, app_label, ['RenameField'])
+        new = rng.choice(free)
+        return {'t': 'RenameField', 'model': mname, 'old': pks[0].field_name, 'new': new,
+                'db_column': (new + '_col') if rng.random() < 0.3 else None, 'db_table': None}
     if k == 'RenameField' and nonpk:
         f = rng.choice(nonpk)
         free = [n for n in FIELD_NAMES + ['f', 'g'] if n not in existing]
